@@ -169,7 +169,7 @@ theorem streamAttach_kwc {s s' : State} {c o : Nat} (hh : streamAttach s c o = .
     refine KWStep.of (s := s) (s' := attachS s o op) (allow := True) ?_ (fun _ hw => winv_same hw rfl rfl rfl rfl) hi.1
     intro hk
     have hname := (hk.oname o op hop).1
-    exact TStep.of_op (o2 := { op with waiters := op.waiters + 1 }) hop rfl rfl rfl (by simp [attachS, hname]) rfl rfl hk
+    exact TStep.of_op (o2 := { op with waiters := op.waiters + 1 }) hop rfl rfl id rfl (by simp [attachS, hname]) rfl rfl hk
   exact streamSend_kwc h1 ⟨hkA, attachS_cinv hi.1.1 hi.2 hop⟩
 
 theorem streamLeave_kwc {s s' : State} {c code : Nat} (hh : streamLeave s c code = .ok s') (hi : KWC noEx s) :
